@@ -6,25 +6,17 @@
    Func, colliding or not — every history of Add / AddWithReplicas / AddWithWeight /
    Remove, every replica count / weight, and every lookup key (given by its two hashes).
 
-   PROVED HERE (no hypothesis on the hash):
+   No hypothesis on the hash:
      ring_invariant, get_member_only, removed_never_returned, added_node_is_served.
-
-   NOT PROVED over the ring model (time): the four statements under the hypothesis
-     collision_free  :=  forall n i n' i', 0 <= i < R -> 0 <= i' < R ->
-                         vh n i = vh n' i' -> n = n' /\ i = i'
-     history_independent            the ring up to order, and Get, depend only on the
-                                    final map node |-> (replicas, value)
-     add_moves_only_to_new          get (add x) p = get p  \/  get (add x) p = GSome x
-     remove_moves_only_from_removed get p = GSome y, repr y <> n  ->  get (remove n) p = GSome y
-     readd_moves_only_to_or_from_it the same disjunction for a re-add with another count
-   They are only CHECKED, per generated history on every collision-free universe, on the
-   implementation's own answers: Check.prop_ok compares every observed Get with
-   [spec_get] (the owner of the first virtual-node hash >= the key, computed from the
-   node map alone) and checks [moved_ok] between consecutive observations.  Without
-   collision_free, history independence is false for the code as it is:
-   Pinned.bucket_order_refuted. *)
-From Coq Require Import List ZArith Bool Sorted.
-From GZ Require Import C15.Model C15.Proofs.
+   Under [collision_free_on vh R U] — distinct (node, index) pairs of the universe U of
+   nodes the histories mention hash differently (the Prop form of the boolean
+   Check.collision_free evaluated on every generated universe):
+     history_independent, get_is_owner_of_successor, op_moves_only_to_or_from_its_node,
+     add_moves_only_to_new, remove_moves_only_from_removed, readd_moves_only_to_or_from_it.
+   Without the hypothesis history independence is false for the code as it is
+   (known finding collision-bucket-insertion-order): Pinned.bucket_order_refuted. *)
+From Coq Require Import List ZArith Bool Sorted Lia.
+From GZ Require Import C15.Model C15.Check C15.Proofs C15.ProofsB.
 Import ListNotations.
 Open Scope Z_scope.
 
@@ -63,6 +55,72 @@ Theorem added_node_is_served : forall vh R pre x r hp ihp,
 Proof. exact added_is_served_l. Qed.
 Print Assumptions added_node_is_served.
 
+(* ======== under collision-freeness on the universe U ================================= *)
+
+(* The ring (keys, every bucket) and every Get depend only on the final map
+   node |-> (effective replicas, value) — [amap_run], the very map Check.prop_ok maintains —
+   not on the order or number of adds and removes that produced it. *)
+Theorem history_independent : forall vh R U, collision_free_on vh R U -> forall ops1 ops2,
+  ops_in_U U ops1 -> ops_in_U U ops2 ->
+  (forall n, alookup n (amap_run R ops1) = alookup n (amap_run R ops2)) ->
+  keys (run vh R ops1) = keys (run vh R ops2) /\
+  (forall h, bucket h (ring (run vh R ops1)) = bucket h (ring (run vh R ops2))) /\
+  forall hp ihp, get (run vh R ops1) hp ihp = get (run vh R ops2) hp ihp.
+Proof. exact history_independent_l. Qed.
+Print Assumptions history_independent.
+
+(* ... namely: Get answers x iff x is the value of the node owning the first live
+   virtual-node hash >= the key's hash (wrapping to the least), and none iff no node has a
+   live virtual node.  [Live m x k]: node (nrepr x) is in m with value (nval x) and
+   k = vh (nrepr x) i for some i < its replica count. *)
+Theorem get_is_owner_of_successor : forall vh R U, collision_free_on vh R U -> forall ops hp ihp,
+  ops_in_U U ops ->
+  let m := amap_run R ops in
+  (forall x, get (run vh R ops) hp ihp = GSome x <->
+             exists k, Live vh m x k /\ is_succ (live_hash vh m) hp k) /\
+  (get (run vh R ops) hp ihp = GNone <-> forall h, ~ live_hash vh m h).
+Proof. exact get_is_successor_owner_l. Qed.
+Print Assumptions get_is_owner_of_successor.
+
+(* Any operation on node n (add, re-add with another count or weight, remove), after any
+   history: a key's answer is unchanged, or it was n's, or it becomes n's. *)
+Theorem op_moves_only_to_or_from_its_node : forall vh R U, collision_free_on vh R U -> forall ops o hp ihp,
+  ops_in_U U ops ->
+  let s := run vh R ops in
+  get (step vh R s o) hp ihp = get s hp ihp \/
+  (exists y, get s hp ihp = GSome y /\ nrepr y = nrepr (op_node o)) \/
+  (exists x', get (step vh R s o) hp ihp = GSome x' /\ nrepr x' = nrepr (op_node o)).
+Proof. exact op_moves_only_its_node_l. Qed.
+Print Assumptions op_moves_only_to_or_from_its_node.
+
+(* Adding a node that is not in the ring moves keys only to it. *)
+Theorem add_moves_only_to_new : forall vh R U, collision_free_on vh R U -> forall ops o hp ihp,
+  ops_in_U U ops -> is_add o = true ->
+  let s := run vh R ops in
+  ~ In (nrepr (op_node o)) (nodes s) ->
+  get (step vh R s o) hp ihp = get s hp ihp \/ get (step vh R s o) hp ihp = GSome (op_node o).
+Proof. exact add_moves_only_to_new_l. Qed.
+Print Assumptions add_moves_only_to_new.
+
+(* Removing a node changes the answer only of keys that were answered with it. *)
+Theorem remove_moves_only_from_removed : forall vh R U, collision_free_on vh R U -> forall ops x hp ihp y,
+  ops_in_U U ops ->
+  let s := run vh R ops in
+  get s hp ihp = GSome y -> nrepr y <> nrepr x ->
+  get (step vh R s (ORemove x)) hp ihp = GSome y.
+Proof. exact remove_moves_only_from_removed_l. Qed.
+Print Assumptions remove_moves_only_from_removed.
+
+(* Re-adding a node (other replica count, weight, or value) moves keys only to or from it. *)
+Theorem readd_moves_only_to_or_from_it : forall vh R U, collision_free_on vh R U -> forall ops o hp ihp,
+  ops_in_U U ops -> is_add o = true ->
+  let s := run vh R ops in
+  get (step vh R s o) hp ihp = get s hp ihp \/
+  (exists y, get s hp ihp = GSome y /\ nrepr y = nrepr (op_node o)) \/
+  get (step vh R s o) hp ihp = GSome (op_node o).
+Proof. exact readd_moves_only_to_or_from_it_l. Qed.
+Print Assumptions readd_moves_only_to_or_from_it.
+
 (* ---- non-vacuity ------------------------------------------------------------------ *)
 Definition ex_hash (n i : Z) : Z := (n * 7919 + i * 104729) mod 1000003.
 Definition ex_ops : list op :=
@@ -85,3 +143,36 @@ Example ex_colliding :
   let s := run (fun n i => (n + i) mod 3) 100 [OAdd (mkNode 1 0); OAdd (mkNode 2 1); ORemove (mkNode 1 0)] in
   length (keys s) = 100%nat /\ length (ring s) = 3%nat /\ get s 2 5 = GSome (mkNode 2 1).
 Proof. vm_compute. auto. Qed.
+
+(* ---- non-vacuity of the collision-free theorems ----------------------------------------- *)
+(* a hash that is injective on (node, index < 100) for every node *)
+Definition cf_hash (n i : Z) : Z := n * 100 + i.
+Example cf_hash_collision_free : collision_free_on cf_hash 100 (fun _ => True).
+Proof. unfold collision_free_on, cf_hash. intros. lia. Qed.
+
+(* two histories with the same final node map {2 |-> 50 replicas, 3 |-> 7 replicas} *)
+Definition cf_ops1 : list op :=
+  [OAdd (mkNode 1 0); OAddW (mkNode 2 1) 50; OAddR (mkNode 3 2) 7; ORemove (mkNode 1 0)].
+Definition cf_ops2 : list op := [OAddR (mkNode 3 2) 7; OAddR (mkNode 2 9) 3; OAddR (mkNode 2 1) 50].
+Example cf_same_map :
+  ops_in_U (fun _ => True) cf_ops1 /\ ops_in_U (fun _ => True) cf_ops2 /\
+  forall n, alookup n (amap_run 100 cf_ops1) = alookup n (amap_run 100 cf_ops2).
+Proof.
+  split; [repeat constructor|]. split; [repeat constructor|].
+  intros n. vm_compute amap_run. cbn [alookup].
+  destruct (2 =? n) eqn:E2; destruct (3 =? n) eqn:E3; try reflexivity.
+  apply Z.eqb_eq in E2, E3. lia.
+Qed.
+(* keys 200..249 belong to node 2, 300..306 to node 3: key 250 is served by node 3, key 310
+   wraps to node 2 — in both histories *)
+Example cf_answers :
+  get (run cf_hash 100 cf_ops1) 250 0 = GSome (mkNode 3 2) /\
+  get (run cf_hash 100 cf_ops2) 250 0 = GSome (mkNode 3 2) /\
+  get (run cf_hash 100 cf_ops1) 310 0 = GSome (mkNode 2 1).
+Proof. vm_compute. auto. Qed.
+(* adding the new node 4 (keys 400..499) takes key 310 from node 2, and nothing else moves *)
+Example cf_add_moves :
+  ~ In 4 (nodes (run cf_hash 100 cf_ops1)) /\
+  get (step cf_hash 100 (run cf_hash 100 cf_ops1) (OAdd (mkNode 4 3))) 310 0 = GSome (mkNode 4 3) /\
+  get (step cf_hash 100 (run cf_hash 100 cf_ops1) (OAdd (mkNode 4 3))) 250 0 = GSome (mkNode 3 2).
+Proof. vm_compute. split; [|auto]. intros [H|[H|[]]]; discriminate. Qed.
